@@ -140,6 +140,12 @@ def run(ctx, config='rel-all'):
     ctx.floor('R3.destroy', nd, 5, 'destructors of element owners (Vec, IntoIter, Drain, Splice, Box)')
     from . import drainfilter
     drainfilter.check(ctx, 'rel-all' if config is None else config, 'R5')
+    # ---- R6 Box hands its value on exactly once: conversions between boxed slices and arrays reinterpret only under an exact
+    # length match (a longer slice would lose its tail elements), Drop for Box destroys the pointee on every path, and the
+    # ownership transfers (into_raw / from_raw / leak / into_inner) run no destructor -- the obligations of C17
+    from .. import runner
+    from . import c17
+    c17.run(runner.Sub(ctx, 'R6', 'C17'), config)
     mu = ps.may_user()
     for b in db.fn_bodies():
         m = b['meta']
